@@ -205,6 +205,48 @@ def check_go_decision(ctx, hg2, rule):
               "a pair that announced its gain and then does not go ends the cycle without a move while it blocked its neighbours")
 
 
+def check_go_order(ctx, hg2, rule):
+    """MGM2: `_enter_state('go?')` replays the go messages that arrived early, and their handler reads `_can_move`: on every path the local decision
+    is stored before the state is entered (and the go message is posted before it too, so that the partner's answer cannot overtake it)"""
+    from .facts import stmt_paths
+    n = 0
+    for p in stmt_paths([s for s in hg2.node.body if not (isinstance(s, ast.Expr) and isinstance(s.value, ast.Constant))]):
+        i_enter = p.index(lambda s: any(isinstance(c, ast.Call) and is_self_attr(c.func, "_enter_state") and c.args and norm(c.args[0]) == "'go?'" for c in ast.walk(s)))
+        if i_enter < 0:
+            continue
+        n += 1
+        stores = [i for i, s in enumerate(p.stmts) if isinstance(s, ast.Assign) and any(norm(t) == "self._can_move" for t in s.targets)]
+        ctx.check(bool(stores) and max(stores) < i_enter, rule, "MGM2: the local go decision is stored before the 'go?' state is entered", hg2, p.stmts[i_enter],
+                  "_enter_state('go?') handles the postponed go messages at once, and their handler reads _can_move: storing the decision afterwards makes it use the previous cycle's value")
+    if n == 0:
+        ctx.bad(rule, "MGM2: the committed branch enters the 'go?' state", hg2, hg2.node, "no path of _handle_gain_messages enters the 'go?' state")
+
+
+def check_enter_state_last(ctx, methods, rule):
+    """MGM2: `_enter_state(S)` sets the state and immediately handles, re-entrantly, the messages postponed for S; those handlers read and write the
+    computation's fields and may enter further states.  Every effect of the caller must therefore come before it: on every path `_enter_state` is the
+    last effect (only `return` may follow)."""
+    n = 0
+    for f in methods:
+        if f.name == "_enter_state":
+            continue
+        body = [s for s in f.node.body if not (isinstance(s, ast.Expr) and isinstance(s.value, ast.Constant))]
+        for p in stmt_paths_(body):
+            idx = [i for i, s in enumerate(p.stmts) if not isinstance(s, (ast.For, ast.While, ast.Try, ast.With)) and any(isinstance(c, ast.Call) and is_self_attr(c.func, "_enter_state") for c in ast.walk(s))]
+            if not idx:
+                continue
+            n += 1
+            late = [s for s in p.stmts[idx[0] + 1:] if not (isinstance(s, ast.Return) and s.value is None) and not (isinstance(s, ast.Expr) and isinstance(s.value, ast.Call) and "logger" in norm(s.value.func))]
+            ctx.check(not late, rule, f"MGM2 {f.name}: entering a state is the last effect of the path", f, late[0] if late else p.stmts[idx[0]],
+                      "the postponed messages of the new state are handled inside _enter_state: what follows it runs after those handlers (stale decision fields, clobbered state)")
+    return n
+
+
+def stmt_paths_(body):
+    from .facts import stmt_paths
+    return stmt_paths(body)
+
+
 def check_mgm_costmodel(ctx, cb, hv, rule):
     """MGM: the candidate side (_compute_best_value) and the current side (_handle_value_message) of the gain use one cost model"""
     lam = [n for n in ast.walk(cb.node) if isinstance(n, ast.Lambda)]
